@@ -18,9 +18,22 @@ func main() {
 	tier := flag.String("tier", "quick", "quick|thorough")
 	seed := flag.Int64("seed", 1, "random seed")
 	out := flag.String("out", "out.json", "report file")
+	shard := flag.String("shard", "", "internal: i/n, run one single-threaded share of C05 and write its partial result")
 	flag.Parse()
 
 	cfg := syn.Config{Thorough: *tier == "thorough", Seed: *seed}
+	if *shard != "" {
+		var i, n int
+		if _, err := fmt.Sscanf(*shard, "%d/%d", &i, &n); err != nil || *prop != "C05" {
+			fmt.Fprintln(os.Stderr, "syn: bad -shard")
+			os.Exit(2)
+		}
+		if err := syn.RunC05Shard(cfg, i, n, *out); err != nil {
+			fmt.Fprintln(os.Stderr, err)
+			os.Exit(1)
+		}
+		return
+	}
 	var r *report.Report
 	switch *prop {
 	case "C05":
